@@ -313,8 +313,8 @@ def contracts(tier):
         if True:      # big-endian + max_length: known finding (see EXPLANATION and known_findings.json)
             yield ("ConstantStreamGenerator", "wide_big_len7_max16", make_generator(_data(7, 2), "wide", "big", 16, "ss"))
         yield ("ConstantStreamGenerator", "w16_little_len5_max16", make_generator(_data(5, 3), "w16", "little", 16, "sync"))
-        yield ("StreamSerializer", "len2_nomax", make_serializer(2, None, "usb"))
-        yield ("StreamSerializer", "len5_max8", make_serializer(5, 8, "sync"))
+        yield ("StreamSerializer", "len2_nomax", make_serializer(2, None, "sync"))       # domains as in the thorough list below
+        yield ("StreamSerializer", "len5_max8", make_serializer(5, 8, "usb"))           # (same name = same configuration)
         return
     # ---- 8-bit generator
     lens = (1, 2, 3, 5, 8, 18) if quick else (1, 2, 3, 4, 7, 8, 9, 17, 33, 64, 255, 256, 300)
